@@ -11,6 +11,10 @@ from ..report import Violation
 from ..ref import objtable as ot, letters
 
 SCRIPT = [['creq', 3, 'wl_callback'], ['del', 3], ['creq', 3, 'wl_callback'], ['use', 3], ['del', 3]]
+# connections that begin with get_registry bind id 3 instead - to different interfaces, in a different order from one
+# connection to the next (what one connection bound an id to says nothing about another connection)
+BIND_SCRIPTS = [[['bind', 3, 'zz_b'], ['use', 3], ['del', 3], ['bind', 3, 'zz_c'], ['use', 3]],
+                [['bind', 3, 'zz_c'], ['use', 3], ['del', 3], ['bind', 3, 'zz_b'], ['use', 3]]]
 CONNS = (0, 1)
 THREADS = (1, 2)
 DESTROY = (0, 1, 2)
@@ -84,7 +88,8 @@ def run_hist(hist, check_from=0):
                 if c not in reg.open:
                     role = {'greg_sent': False, 'greg_recv': True, 'next': None, 'orphan': None, 'greg_late': False}[kind]
                     inst = {'name': letters.word(len(reg.instances), caps=True), 'role': role, 'open': True, 'pos': 0,
-                            'ref': ot.RefConn(), 'thread': t, 'greg': kind != 'next'}
+                            'ref': ot.RefConn(), 'thread': t, 'greg': kind != 'next',
+                            'script': BIND_SCRIPTS[len(reg.instances) % 2] if kind in ('greg_sent', 'greg_recv') else SCRIPT}
                     reg.open[c] = len(reg.instances)
                     reg.instances.append(inst)
                     want_out.append('New %s connection %s' % (role_word(role), inst['name']))
@@ -100,7 +105,7 @@ def run_hist(hist, check_from=0):
                     warn_ok = inst['role'] is not False and t != inst['thread']
                 else:
                     if kind == 'next':
-                        sev = SCRIPT[inst['pos']]
+                        sev = inst['script'][inst['pos']]
                         inst['pos'] += 1
                     else:
                         sev = ['get_registry']
@@ -177,6 +182,15 @@ def run_hist(hist, check_from=0):
     return V, reg
 
 
+def long_history(n):
+    """One connection stays open while n short-lived ones come and go at another address."""
+    h = [['msg', 0, 1, 'greg_sent'], ['msg', 0, 1, 'next']]
+    for _ in range(n):
+        h += [['msg', 1, 1, 'greg_sent'], ['destroy', 1]]
+    h += [['msg', 0, 1, 'next'], ['msg', 1, 1, 'greg_recv'], ['msg', 0, 1, 'next']]
+    return h
+
+
 def expand(hist):
     _, reg = run_hist(hist, check_from=len(hist))
     out = []
@@ -227,7 +241,8 @@ def replay_scripts():
             else:
                 _, c, t, kind = ev
                 if c not in reg_open:
-                    insts.append({'role': {'greg_sent': False, 'greg_recv': True, 'next': None, 'orphan': None}[kind], 'pos': 0, 'ref': ot.RefConn()})
+                    insts.append({'role': {'greg_sent': False, 'greg_recv': True, 'next': None, 'orphan': None}[kind], 'pos': 0, 'ref': ot.RefConn(),
+                                  'script': BIND_SCRIPTS[len(insts) % 2] if kind in ('greg_sent', 'greg_recv') else SCRIPT})
                     reg_open[c] = len(insts) - 1
                 inst = insts[reg_open[c]]
                 server = bool(inst['role'])
@@ -235,7 +250,7 @@ def replay_scripts():
                     msg = {'t_us': T + n * 100, 'sent': server, 'iface': 'zz_q', 'id': 77, 'name': 'foo', 'args': [['int', 1]],
                            'queue': None, 'conn': None}
                 else:
-                    sev = ['get_registry'] if kind != 'next' else SCRIPT[inst['pos']]
+                    sev = ['get_registry'] if kind != 'next' else inst['script'][inst['pos']]
                     if kind == 'next':
                         inst['pos'] += 1
                     msg, _ = ot.build(sev, inst['ref'], T + n * 100, server_side=server)
@@ -256,6 +271,11 @@ def run(run, tier, seed):
     d_un = 3 if tier == 'quick' else 4
     res = explore.bfs(expand, d_un, seed=seed, merge=False, bound={'depth': d_un, 'merged': False})
     run.add_part('plugin_bfs_unmerged', res)
+    n_long = 70 if tier == 'quick' else 300
+    res = explore.prod(lambda: iter([{'history': long_history(n_long)}]), lambda c: Eval(run_hist(c['history'])[0], nontrivial=True, transitions=len(c['history'])),
+                       workers=1, bound={'short_lived_connections': n_long})
+    res.samples = [{'long_history': n_long}]
+    run.add_part('long_session', res)
     if tier == 'thorough':
         from .. import gdbreplay
         run.parts_in_child(lambda r: gdbreplay.replay_part(r, 'C15'))
